@@ -1,4 +1,4 @@
-import NomtModel.Core.MultiAlign
+import NomtModel.Core.MultiTotal
 import NomtModel.Core.TermHasher
 import NomtModel.Core.Complete
 /-!
@@ -63,21 +63,8 @@ every verified depth (true for 256-bit keys: `depth ≤ |terminal path| ≤ 256`
 theorem T18_2_multi_lookups_total (mp : MultiProof Node VH) (root : Node) (v : VerifiedMulti Node VH)
     (hv : verifyMulti H mp root = .ok v) (key : Key) (hk : ∀ vp ∈ v.inner, vp.depth ≤ key.length) (vh : VH) :
     (findIndexFor v key).isPanic = false ∧ (confirmValue v key vh).isPanic = false ∧
-    (confirmNonexistence v key).isPanic = false := by
-  have hfi := findIndexFor_no_panic H mp root v hv key hk
-  refine ⟨hfi, ?_, ?_⟩
-  · cases h : findIndexFor v key with
-    | ok i =>
-      obtain ⟨vp, hget, _⟩ := findIndexFor_ok v key i h
-      simp [confirmValue, h, confirmValueInner, getIdx_some _ _ _ _ hget, Outcome.isPanic]
-    | err e => simp [confirmValue, h, Outcome.isPanic]
-    | panic s => rw [h] at hfi; simp [Outcome.isPanic] at hfi
-  · cases h : findIndexFor v key with
-    | ok i =>
-      obtain ⟨vp, hget, _⟩ := findIndexFor_ok v key i h
-      simp [confirmNonexistence, h, confirmNonexistenceInner, getIdx_some _ _ _ _ hget, Outcome.isPanic]
-    | err e => simp [confirmNonexistence, h, Outcome.isPanic]
-    | panic s => rw [h] at hfi; simp [Outcome.isPanic] at hfi
+    (confirmNonexistence v key).isPanic = false :=
+  multi_lookups_total H mp root v hv key hk vh
 
 /-- T7.1 **alignment**: whatever object the prover supplied and whatever the root, every path of an
 accepted multi-proof was hashed to the root along the first `depth` bits of its own terminal path
@@ -130,8 +117,8 @@ theorem T7_3_binary_search_partition {ε α : Type} (f : α → Outcome ε Order
 
 /-! Non-vacuity (term hasher `TH`, which is `Sound`): a three-key set, the multi-proof built by
 `fromPathProofs` from two specified path proofs verifies against the specified root, finds the path of
-a key and confirms a true statement; a depth-mutated object reaches the explicit panic site
-(the known defect: `verify_range` slices out of range on malformed proofs). -/
+a key and confirms a true statement; a depth-mutated object is rejected with `InvalidDepth`
+(before /repo commit 2b65ee4 `verify_range` sliced out of range on it and panicked). -/
 example :
     let S : List (Key × Nat) := [([false, false], 7), ([false, true], 8), ([true, true], 9)]
     let p1 := proveSpec TH 2 S [false, true]
@@ -146,8 +133,10 @@ example :
           decide (confirmValue v [true, true] 9 = .ok true) &&
           decide (confirmValue v [false, false] 7 = .err .keyOutOfScope)
         | _ => false) &&
-       (verifyMulti TH { mp with paths := mp.paths.map (fun p => { p with depth := p.depth + 1 }) }
-          (nodeAt TH 2 0 S)).isPanic
+       (match verifyMulti TH { mp with paths := mp.paths.map (fun p => { p with depth := p.depth + 1 }) }
+          (nodeAt TH 2 0 S) with
+        | .err .invalidDepth => true
+        | _ => false)
      | _ => false) = true := by decide
 
 end Nomt.C07
